@@ -364,11 +364,12 @@ pub fn expected_literal(text: &str) -> Option<Lit> {
     if let Some(digits) = up.strip_prefix("&O") {
         return radix_literal(digits, 8);
     }
+    // a fraction beyond the largest finite value of its type has no value: it must be rejected
     if let Some(body) = up.strip_suffix('#') {
-        return body.parse::<f64>().ok().map(Lit::Double);
+        return body.parse::<f64>().ok().map(|v| if v.is_finite() { Lit::Double(v) } else { Lit::Overflow });
     }
     if up.contains('.') {
-        return up.parse::<f32>().ok().map(Lit::Single);
+        return up.parse::<f32>().ok().map(|v| if v.is_finite() { Lit::Single(v) } else { Lit::Overflow });
     }
     // whole decimal number
     let trimmed = up.trim_start_matches('0');
